@@ -8,3 +8,6 @@ import ZbossModel.Props.C15
 #print axioms Zboss.Codec.C15_table_rsp
 #print axioms Zboss.Codec.C15_sound
 #print axioms Zboss.Codec.C15_sound_all_classes
+#print axioms Zboss.Codec.C15_partial_sound
+#print axioms Zboss.Codec.C15_table_contig
+#print axioms Zboss.Codec.C15_partial_sound_all_classes
